@@ -56,12 +56,12 @@ def dirObs (s : Dir String) : J :=
   J.obj [("c", J.arr ((obsCompleted s).map mobsJ)), ("nc", J.arr ((obsNotCompleted s).map mobsJ)),
          ("logs", J.arr (s.logs.map fun p => J.arr [S p.1, J.str p.2]))]
 
-def runDir (cfg : Cfg) : Dir String → List (Op String) → List J
+def runDir : Dir String → List (Op String) → List J
   | _, [] => []
   | s, op :: ops =>
-    let (s1, r) := step cfg id s op
+    let (s1, r) := step id s op
     let o := if isObs op then [("obs", dirObs s1)] else []
-    J.obj (("r", resJ r) :: o) :: runDir cfg s1 ops
+    J.obj (("r", resJ r) :: o) :: runDir s1 ops
 
 open CogentModel.DataStoreSqlite in
 def sqlObs (s : Sql String) : J :=
@@ -108,11 +108,10 @@ def optStrJ (o : Option Str) : J := optS o
 def handle (cmd : String) (j : J) : Except String J :=
   match cmd with
   | "dir" => do
-    let cfg : Cfg := { exactDrop := ← (← j.get "exact").toBool, roDropChecked := ← (← j.get "rocheck").toBool }
     let sfx := (← (← j.get "sfx").toStr).toList
     let mode ← parseMode (← j.get "mode")
     let ops ← (← j.get "ops").toListOf parseOp
-    pure (J.arr (runDir cfg (Dir.create mode sfx) ops))
+    pure (J.arr (runDir (Dir.create mode sfx) ops))
   | "sql" => do
     let mode ← parseMode (← j.get "mode")
     let ops ← (← j.get "ops").toListOf parseOp
@@ -128,13 +127,12 @@ def handle (cmd : String) (j : J) : Except String J :=
     pure (J.arr (runSpec k sfx (DataStoreDict.Dict.empty mode) ops))
   | "safe" => do
     -- hypotheses of `store_refines_dict_partial` on a concrete history
-    let cfg : Cfg := { exactDrop := ← (← j.get "exact").toBool, roDropChecked := ← (← j.get "rocheck").toBool }
     let sfx := (← (← j.get "sfx").toStr).toList
     let mode ← parseMode (← j.get "mode")
     let ids := (← (← j.get "ids").toListOf J.toStr).map String.toList
     let ops ← (← j.get "ops").toListOf parseOp
-    pure (J.obj [("hyg", J.bool (DataStoreDict.hyg cfg sfx ids)),
-                 ("safe", J.bool (DataStoreDict.safeHist cfg sfx ids (DataStoreDict.Dict.empty mode) ops))])
+    pure (J.obj [("hyg", J.bool (DataStoreDict.hyg sfx ids)),
+                 ("safe", J.bool (DataStoreDict.safeHist sfx ids (DataStoreDict.Dict.empty mode) ops))])
   | "names" => do
     -- the naming layer on one identifier
     let sfx := (← (← j.get "sfx").toStr).toList
